@@ -4,7 +4,8 @@
    reference dangles.                                                                    *)
 From Coq Require Import ZArith List Lia Bool Permutation ZifyBool.
 From SFV Require Import Base Interp.
-From SFV.P Require Import BaseP InterpP InterpHeapP IdsP.
+From SFV Require Import RandRange RowHistory.
+From SFV.P Require Import BaseP InterpP InterpHeapP QuietP IdsP.
 Import ListNotations. Open Scope Z_scope.
 
 (* ------------------------------------------------------------------ bounded ids *)
@@ -126,7 +127,8 @@ Proof.
   - dbind H as [s1 v1]. apply IHa in E.
     destruct v1; try discriminate;
       try (destruct (py_own_attr f); [discriminate|]);
-      try (injection H as <- _; exact E).
+      try (injection H as <- _; exact E);
+      try (destruct (String.eqb f "id"); [injection H as <- _; exact E|discriminate]).
     + destruct (nth_error (heap s1) h); [|discriminate].
       destruct (row_attr c f); injection H as <- _; exact E.
     + destruct (String.eqb f "id"); [|discriminate]. dbind H as [s2 i].
@@ -173,6 +175,7 @@ Proof.
       destruct (row_attr c p); [|discriminate]. injection E as <- _. apply jq_refl.
     + destruct (String.eqb p "id"); [|discriminate]. dbind E as [s2 i].
       injection E as <- _. apply touch_slot_jq in E0. exact E0.
+    + destruct (String.eqb p "id"); [|discriminate]. injection E as <- _. apply jq_refl.
 Qed.
 
 Lemma reference_jq e path s s' v : reference e path s = Ok (s', v) -> jq s s'.
@@ -185,18 +188,429 @@ Proof.
   - injection H as <- _. exact E0.
   - dbind H as [s2 i]. injection H as <- _.
     apply touch_slot_jq in E1. eapply jq_trans; eassumption.
+  - injection H as <- _. exact E0.
 Qed.
+
+(* ------------------------------------------------------------------ random references: every
+   reference value held anywhere (row fields, variables) and everything the row history can
+   hand out is bounded by the id counters *)
+
+Definition val_ok (s : st) (v : value) : Prop :=
+  match v with VRef T i => 1 <= i <= last_id s T | _ => True end.
+
+Lemma val_ok_mono s s' v : mono s s' -> val_ok s v -> val_ok s' v.
+Proof. destruct v; auto. cbn [val_ok]. intros M H. specialize (M table). lia. Qed.
+
+Definition hist_ok_on (last : string -> Z) (h : rh) : Prop :=
+  (forall r, In r (hrows h) -> 1 <= h_id r <= last (h_table r)) /\
+  (forall name v, lookupS name (n2t h) = None -> lookupZ name (tc h) = Some v -> v <= last name) /\
+  (forall k v, lookupZ k (tc h) = Some v -> 0 <= v) /\
+  (forall k v, lookupZ k (lc h) = Some v -> 0 <= v) /\
+  (forall k v, In (k, v) (nc h) -> 0 <= v).
+
+Definition hist_ok (s : st) : Prop := hist_ok_on (last_id s) (hist (rnd s)).
+
+Definition V (s : st) : Prop :=
+  (forall c n v, In c (heap s) -> In (n, v) (c_fields c) -> val_ok s v) /\
+  (forall f n v, In f (frames s) -> In (n, v) (f_vars f) -> val_ok s v) /\
+  hist_ok s.
+
+Lemma V_transfer s s' :
+  heap s' = heap s -> frames s' = frames s -> hist (rnd s') = hist (rnd s) -> mono s s' -> V s -> V s'.
+Proof.
+  intros Hh Hf Hr M (V1 & V2 & (H1 & H2 & H3 & H4 & H5)). unfold V, hist_ok, hist_ok_on. rewrite Hh, Hf, Hr. splits.
+  - intros c n v Hc Hin. eapply val_ok_mono; [exact M|]. eapply V1; eassumption.
+  - intros f n v Hc Hin. eapply val_ok_mono; [exact M|]. eapply V2; eassumption.
+  - intros r Hr'. specialize (H1 r Hr'). specialize (M (h_table r)). lia.
+  - intros name v Hn Hv. specialize (H2 name v Hn Hv). specialize (M name). lia.
+  - exact H3.
+  - exact H4.
+  - exact H5.
+Qed.
+
+Lemma V_so s s' : so s s' -> mono s s' -> V s -> V s'.
+Proof. intros (a & b & c & _) M. apply V_transfer; auto. rewrite c. reflexivity. Qed.
+
+Lemma V_rnd_draws s dr : V s -> V (upd_rnd s (mkR (hist (rnd s)) dr)).
+Proof. apply (V_transfer s (upd_rnd s _)); try reflexivity. apply mono_ids. reflexivity. Qed.
+
+(* values read from the namespace *)
+Lemma In_cur_frame s f : frames s = f :: tl (frames s) -> In f (frames s).
+Proof. intros ->. left. reflexivity. Qed.
+
+Lemma lookup_name_ok e s n v : V s -> lookup_name e s n = Ok (Some v) -> val_ok s v.
+Proof.
+  intros (V1 & V2 & _). unfold lookup_name.
+  destruct (reserved_name n); [discriminate|].
+  destruct (lookup n (f_vars (cur_frame s))) as [w|] eqn:E1.
+  { intros H. injection H as <-. destruct (lookup_In _ _ _ E1) as (k' & Hin).
+    unfold cur_frame in Hin. destruct (frames s) as [|f r] eqn:Ef; [destruct Hin|].
+    eapply (V2 f); [try rewrite Ef; left; reflexivity|exact Hin]. }
+  destruct (match cur_obj s with Some c => row_attr c n | None => None end) as [w|] eqn:E2.
+  { intros H. injection H as <-. unfold cur_obj in E2.
+    destruct (f_obj (cur_frame s)) as [h|]; [|discriminate].
+    destruct (nth_error (heap s) h) as [c|] eqn:Hc; [|discriminate].
+    unfold row_attr in E2. destruct (String.eqb n "id"); [injection E2 as <-; exact I|].
+    destruct (lookup_In _ _ _ E2) as (k' & Hin). eapply (V1 c); [eapply nth_error_In; exact Hc|exact Hin]. }
+  destruct (object_name s n) as [w|] eqn:E3.
+  { intros H. injection H as <-. unfold object_name in E3.
+    repeat match type of E3 with
+           | match ?x with Some _ => _ | None => _ end = _ => destruct x
+           end; try discriminate; injection E3 as <-; exact I. }
+  destruct (lookup n (options e)) as [w|] eqn:E4.
+  { destruct w; try discriminate; intros H; injection H as <-; exact I. }
+  destruct (String.eqb n "id" || String.eqb n "count");
+    [intros H; injection H as <-; destruct (cur_obj s); exact I|].
+  destruct (String.eqb n "child_index"); [intros H; injection H as <-; destruct (cur_obj s); exact I|].
+  destruct (String.eqb n "this"); [intros H; injection H as <-; destruct (f_obj (cur_frame s)); exact I|].
+  discriminate.
+Qed.
+
+Lemma eval_expr_V e x : forall s s' v, eval_expr e x s = Ok (s', v) -> V s -> V s' /\ val_ok s' v.
+Proof.
+  assert (HV : forall s s' v, eval_expr e x s = Ok (s', v) -> V s -> V s').
+  { intros s s' v H. apply V_so; [eapply eval_expr_so; exact H|]. apply (eval_expr_jq _ _ _ _ _ H). }
+  induction x as [z|n|a IHa f|a IHa b IHb|a IHa b IHb|a IHa b IHb]; intros s s' v H HVs;
+    (split; [eapply HV; eassumption|]); cbn [eval_expr] in H.
+  - injection H as _ <-. exact I.
+  - dbind H as o. destruct o as [w|]; injection H as <- <-; [|exact I].
+    eapply lookup_name_ok; eassumption.
+  - dbind H as [s1 v1].
+    assert (V1' : V s1) by (eapply V_so; [eapply eval_expr_so; exact E|apply (eval_expr_jq _ _ _ _ _ E)|exact HVs]).
+    destruct v1; try discriminate;
+      try (destruct (py_own_attr f); [discriminate|]);
+      try (injection H as _ <-; exact I);
+      try (destruct (String.eqb f "id"); [injection H as _ <-; exact I|discriminate]).
+    + destruct (nth_error (heap s1) h) as [c|] eqn:Hc; [|discriminate].
+      destruct (row_attr c f) as [w|] eqn:Hw; injection H as <- <-; [|exact I].
+      unfold row_attr in Hw. destruct (String.eqb f "id"); [injection Hw as <-; exact I|].
+      destruct (lookup_In _ _ _ Hw) as (k' & Hin). destruct V1' as (Va & _).
+      eapply (Va c); [eapply nth_error_In; exact Hc|exact Hin].
+    + destruct (String.eqb f "id"); [|discriminate]. dbind H as [s2 i]. injection H as _ <-. exact I.
+  - dbind H as [s1 v1]. dbind H as [s2 v2].
+    destruct v1, v2; try discriminate; injection H as _ <-; exact I.
+  - dbind H as [s1 v1]. dbind H as [s2 v2].
+    destruct v1, v2; try discriminate; injection H as _ <-; exact I.
+  - dbind H as [s1 v1]. dbind H as [s2 v2].
+    destruct v1, v2; try discriminate; injection H as _ <-; exact I.
+Qed.
+
+Definition not_ref (v : value) : Prop := match v with VRef _ _ => False | _ => True end.
+Lemma not_ref_ok s v : not_ref v -> val_ok s v.
+Proof. destruct v; cbn; tauto. Qed.
+
+Lemma look_for_number_not_ref t w : look_for_number t = Ok w -> not_ref w.
+Proof.
+  unfold look_for_number. destruct (has_dot t); [discriminate|].
+  destruct t; [intros H; injection H as <-; exact I|].
+  destruct (first_is_zero _); [intros H; injection H as <-; exact I|].
+  destruct (all_digits _); intros H; injection H as <-; exact I.
+Qed.
+
+Lemma native_str_not_ref t w : native_str t = Ok w -> not_ref w.
+Proof.
+  unfold native_str. destruct t; [intros H; injection H as <-; exact I|].
+  destruct (negb (str_all is_sigma _)); [discriminate|].
+  destruct (first_is is_space _); [intros H; injection H as <-; exact I|].
+  destruct (_ && _); [discriminate|].
+  destruct (dec_literal _); [intros H; injection H as <-; exact I|].
+  destruct (String.eqb _ "None"); [intros H; injection H as <-; exact I|].
+  destruct (_ || _); [discriminate|]. intros H; injection H as <-; exact I.
+Qed.
+
+Lemma render_formula_V e ps s s' v : render_formula e ps s = Ok (s', v) -> V s -> V s' /\ val_ok s' v.
+Proof.
+  intros H HVs. split.
+  { eapply V_so; [eapply render_formula_so; exact H|apply (render_formula_jq _ _ _ _ _ H)|exact HVs]. }
+  unfold render_formula in H. destruct (version e =? 3).
+  - destruct ps as [|[tx|x] [|p2 r]];
+      try (dbind H as [s1 t]; dbind H as w0; injection H as _ <-;
+           apply not_ref_ok; eapply native_str_not_ref; exact E0).
+    dbind H as [s1 w]. destruct (eval_expr_V _ _ _ _ _ E HVs) as [_ Hw].
+    destruct w; try discriminate; try (injection H as <- <-; exact Hw).
+    dbind H as w0. injection H as _ <-. apply not_ref_ok. eapply native_str_not_ref; exact E0.
+  - dbind H as [s1 t]. dbind H as w0. injection H as _ <-.
+    apply not_ref_ok. eapply look_for_number_not_ref; exact E0.
+Qed.
+
+Lemma getattr_path_V s v p s' w : getattr_path s v p = Ok (s', w) -> V s -> V s' /\ val_ok s' w.
+Proof.
+  intros H HVs.
+  assert (M : mono s s').
+  { unfold getattr_path in H. destruct v; try discriminate.
+    - destruct (nth_error (heap s) h); [|discriminate]. destruct (row_attr c p); [|discriminate].
+      injection H as <- _. apply mono_refl.
+    - destruct (String.eqb p "id"); [|discriminate]. dbind H as [s2 i]. injection H as <- _.
+      apply (touch_slot_jq _ _ _ _ E).
+    - destruct (String.eqb p "id"); [|discriminate]. injection H as <- _. apply mono_refl. }
+  split; [eapply V_so; [eapply getattr_path_so; exact H|exact M|exact HVs]|].
+  unfold getattr_path in H. destruct v; try discriminate.
+  - destruct (nth_error (heap s) h) as [c|] eqn:Hc; [|discriminate].
+    destruct (row_attr c p) as [w0|] eqn:Hw; [|discriminate]. injection H as <- <-.
+    unfold row_attr in Hw. destruct (String.eqb p "id"); [injection Hw as <-; exact I|].
+    destruct (lookup_In _ _ _ Hw) as (k' & Hin). destruct HVs as (Va & _).
+    eapply (Va c); [eapply nth_error_In; exact Hc|exact Hin].
+  - destruct (String.eqb p "id"); [|discriminate]. dbind H as [s2 i]. injection H as _ <-. exact I.
+  - destruct (String.eqb p "id"); [|discriminate]. injection H as _ <-. exact I.
+Qed.
+
+Lemma follow_path_V parts : forall s v s' w,
+  follow_path s v parts = Ok (s', w) -> V s -> val_ok s v -> V s' /\ val_ok s' w.
+Proof.
+  induction parts as [|p r IH]; intros s v s' w H HVs Hv; cbn [follow_path] in H.
+  - injection H as <- <-. auto.
+  - dbind H as [s1 w1]. destruct (getattr_path_V _ _ _ _ _ E HVs) as [V1 Hw1]. eapply IH; eassumption.
+Qed.
+
+Lemma reference_V e path s s' v : reference e path s = Ok (s', v) -> V s -> V s' /\ val_ok s' v.
+Proof.
+  intros H HVs. split.
+  { eapply V_so; [eapply reference_so; exact H|apply (reference_jq _ _ _ _ _ H)|exact HVs]. }
+  unfold reference in H. destruct (split_dot path) as [|first parts]; [discriminate|].
+  dbind H as o. destruct o as [v0|]; [|destruct parts; discriminate].
+  dbind H as [s1 target].
+  destruct (follow_path_V _ _ _ _ _ E0 HVs (lookup_name_ok _ _ _ _ HVs E)) as [V1 Ht].
+  destruct target; try discriminate.
+  - injection H as _ <-. exact I.
+  - dbind H as [s2 i]. injection H as _ <-. exact I.
+  - injection H as <- <-. exact Ht.
+Qed.
+
+(* the row history only hands out issued ids *)
+Lemma find_nick_row_In rows table n d id :
+  find_nick_row rows table n d = Some id -> exists r, In r rows /\ h_table r = table /\ h_id r = id.
+Proof.
+  induction rows as [|r rest IH]; cbn [find_nick_row]; [discriminate|].
+  destruct (String.eqb (h_table r) table && _ && _) eqn:E.
+  - intros H. injection H as <-. exists r. split; [left; reflexivity|].
+    apply andb_true_iff in E. destruct E as [E _]. apply andb_true_iff in E. destruct E as [E _].
+    apply String.eqb_eq in E. auto.
+  - intros H. destruct (IH H) as (r0 & Hin & Ht & Hi). exists r0. split; [right; exact Hin|auto].
+Qed.
+
+Lemma get0_nonneg k l : (forall k' v, lookupZ k' l = Some v -> 0 <= v) -> 0 <= get0 k l.
+Proof. intros H. unfold get0. destruct (lookupZ k l) eqn:E; [eapply H; exact E|lia]. Qed.
+
+Lemma lookupZ_Some_In k v l : lookupZ k l = Some v -> In (k, v) l.
+Proof.
+  induction l as [|[k' v'] r IH]; cbn [lookupZ]; [discriminate|].
+  destruct (String.eqb k k') eqn:E.
+  - apply String.eqb_eq in E. subst k'. intros H. injection H as ->. left. reflexivity.
+  - intros H. right. apply IH. exact H.
+Qed.
+
+Lemma In_assignZ k v l x : In x (assignZ k v l) -> x = (k, v) \/ In x l.
+Proof.
+  induction l as [|[k' v'] r IH]; cbn [assignZ].
+  - intros [H|[]]. left. congruence.
+  - destruct (String.eqb k k'); cbn [In]; intros [H|H]; auto.
+    destruct (IH H); auto.
+Qed.
+
+Lemma get0_nonneg_In k l : (forall k' v, In (k', v) l -> 0 <= v) -> 0 <= get0 k l.
+Proof. intros H. apply get0_nonneg. intros k' v Hv. apply (H k' v). apply lookupZ_Some_In. exact Hv. Qed.
+
+Lemma random_reference_V e to s s' v : random_reference e to s = Ok (s', v) -> V s -> V s' /\ val_ok s' v.
+Proof.
+  unfold random_reference. intros H HVs.
+  destruct (negb (rr_ok e)); [discriminate|].
+  dbind H as [[[nick table] lo] hi].
+  destruct (draws (rnd s)) as [|r rest]; [discriminate|].
+  destruct ((0 <=? r) && (r <? hi - lo + 1)) eqn:Er; [|discriminate].
+  dbind H as [t i]. injection H as <- <-.
+  split; [apply V_rnd_draws; exact HVs|].
+  cbn [val_ok]. change (last_id (upd_rnd s _) t) with (last_id s t).
+  destruct HVs as (_ & _ & (H1 & H2 & H3 & H4 & H5)).
+  unfold ref_range in E.
+  destruct (lookupS to (n2t (hist (rnd s)))) as [t0|] eqn:En.
+  - (* by nickname *)
+    destruct (get0 to (nc (hist (rnd s))) =? 0); [discriminate|]. injection E as <- <- <- <-.
+    cbn [resolve_draw] in E0. destruct (find_nick_row _ _ _ _) as [id|] eqn:Ef; [|discriminate].
+    injection E0 as <- <-. destruct (find_nick_row_In _ _ _ _ _ Ef) as (r0 & Hin & Ht & Hi).
+    specialize (H1 r0 Hin). rewrite Ht, Hi in H1. exact H1.
+  - (* by table name *)
+    destruct (lookupZ to (tc (hist (rnd s)))) as [m|] eqn:Em; [|discriminate].
+    destruct (m =? 0); [discriminate|]. injection E as <- <- <- <-.
+    cbn [resolve_draw] in E0. injection E0 as <- <-.
+    specialize (H2 to m En Em).
+    pose proof (get0_nonneg to (lc (hist (rnd s))) H4) as Hg.
+    destruct (m <? get0 to (lc (hist (rnd s))) + 1); lia.
+Qed.
+
+(* saving a row into the history *)
+Lemma lookupZ_assignZ k k' v l : lookupZ k (assignZ k' v l) = if String.eqb k k' then Some v else lookupZ k l.
+Proof.
+  induction l as [|[k2 v2] r IH]; cbn [assignZ lookupZ]; [reflexivity|].
+  destruct (String.eqb k' k2) eqn:E2; cbn [lookupZ].
+  - apply String.eqb_eq in E2. subst k2. destruct (String.eqb k k'); reflexivity.
+  - destruct (String.eqb k k2) eqn:E3; [|exact IH].
+    apply String.eqb_eq in E3. subst k2. destruct (String.eqb k k') eqn:E4; [|reflexivity].
+    apply String.eqb_eq in E4. subst k'. rewrite String.eqb_refl in E2. discriminate.
+Qed.
+
+Lemma save_row_ok last h t nick id :
+  hist_ok_on last h -> 1 <= id <= last t ->
+  (match nick with Some n => nick_maps_to h n t = true | None => True end) ->
+  hist_ok_on last (save_row h t nick id).
+Proof.
+  intros (H1 & H2 & H3 & H4 & H5) Hid Hk. unfold hist_ok_on.
+  destruct nick as [n|]; unfold save_row; cbn [hrows tc lc nc n2t].
+  - unfold nick_maps_to in Hk.
+    destruct (lookupS n (n2t h)) as [t0|] eqn:En; [|discriminate].
+    pose proof (get0_nonneg_In n (nc h) H5) as Hg.
+    splits.
+    + intros r Hr. apply in_app_or in Hr. destruct Hr as [Hr|[<-|[]]]; [apply (H1 r Hr)|cbn; exact Hid].
+    + intros name v Hn. rewrite !lookupZ_assignZ.
+      destruct (String.eqb name n) eqn:E1; [apply String.eqb_eq in E1; subst name; congruence|].
+      destruct (String.eqb name t) eqn:E2; [apply String.eqb_eq in E2; subst name; intros Hv; injection Hv as <-; lia|].
+      apply H2. exact Hn.
+    + intros k v. rewrite !lookupZ_assignZ. destruct (String.eqb k n); [intros Hv; injection Hv as <-; lia|].
+      destruct (String.eqb k t); [intros Hv; injection Hv as <-; lia|]. apply H3.
+    + exact H4.
+    + intros k v Hin. apply In_assignZ in Hin. destruct Hin as [Heq|Hin]; [injection Heq as _ ->; lia|].
+      apply (H5 k v Hin).
+  - splits.
+    + intros r Hr. apply in_app_or in Hr. destruct Hr as [Hr|[<-|[]]]; [apply (H1 r Hr)|cbn; exact Hid].
+    + intros name v Hn. rewrite lookupZ_assignZ.
+      destruct (String.eqb name t) eqn:E2; [apply String.eqb_eq in E2; subst name; intros Hv; injection Hv as <-; lia|].
+      apply H2. exact Hn.
+    + intros k v. rewrite lookupZ_assignZ. destruct (String.eqb k t); [intros Hv; injection Hv as <-; lia|]. apply H3.
+    + exact H4.
+    + exact H5.
+Qed.
+
+Lemma remember_history_V e s t nick id s' :
+  remember_history e s t nick id = Ok s' -> V s -> 1 <= id <= last_id s t -> V s'.
+Proof.
+  unfold remember_history. intros H HVs Hid.
+  destruct (existsb (String.eqb t) (hist_tables e)).
+  2:{ destruct nick as [n|]; [destruct (existsb (String.eqb n) (hist_tables e)); [discriminate|]|];
+      injection H as <-; exact HVs. }
+  destruct (match nick with Some n => negb (nick_maps_to (hist (rnd s)) n t) | None => false end) eqn:Ek;
+    [discriminate|]. injection H as <-.
+  destruct HVs as (Va & Vb & Hh).
+  split; [exact Va|]. split; [exact Vb|].
+  unfold hist_ok. cbn [rnd upd_rnd hist].
+  change (last_id (upd_rnd s (mkR (save_row (hist (rnd s)) t nick id) (draws (rnd s))))) with (last_id s).
+  apply save_row_ok; [exact Hh|exact Hid|].
+  destruct nick as [n|]; [|exact I]. apply negb_false_iff in Ek. exact Ek.
+Qed.
+
+Lemma reset_hist_V s : V s -> V (reset_hist s).
+Proof.
+  intros (Va & Vb & (H1 & H2 & H3 & H4 & H5)). unfold V, hist_ok, hist_ok_on, reset_hist, reset_locals.
+  cbn [heap frames rnd upd_rnd hist hrows tc lc nc n2t]. splits; auto.
+Qed.
+
+(* state updates *)
+Lemma In_set_nth {A} (l : list A) : forall i x y, In y (set_nth i x l) -> y = x \/ In y l.
+Proof.
+  induction l as [|z r IH]; intros i x y; destruct i; cbn [set_nth In]; try tauto.
+  - intuition congruence.
+  - intros [H|H]; [tauto|]. destruct (IH _ _ _ H); tauto.
+Qed.
+
+Lemma V_set_field s h n v : V s -> val_ok s v -> V (set_field s h n v).
+Proof.
+  intros (Va & Vb & Hh) Hv. unfold set_field. destruct (nth_error (heap s) h) as [c0|] eqn:Hc; [|split; auto].
+  unfold V, hist_ok. cbn [heap frames rnd upd_heap]. split; [|split; [exact Vb|exact Hh]].
+  intros c n' v' Hin Hf. change (val_ok s v'). apply In_set_nth in Hin. destruct Hin as [->|Hin].
+  - cbn [c_fields] in Hf. apply In_assign in Hf. destruct Hf as [Heq|Hf]; [injection Heq as _ <-; exact Hv|].
+    eapply (Va c0); [eapply nth_error_In; exact Hc|exact Hf].
+  - eapply Va; eassumption.
+Qed.
+
+Lemma V_set_var s n v : V s -> val_ok s v -> V (set_var s n v).
+Proof.
+  intros (Va & Vb & Hh) Hv. unfold set_var. destruct (frames s) as [|f r] eqn:Ef; [split; [|split]; auto; try rewrite Ef; auto|].
+  unfold V, hist_ok. cbn [heap frames rnd upd_frames]. split; [exact Va|split; [|exact Hh]].
+  intros f' n' v' [<-|Hin] Hf; change (val_ok s v').
+  - cbn [f_vars] in Hf. apply In_assign in Hf. destruct Hf as [Heq|Hf]; [injection Heq as _ <-; exact Hv|].
+    eapply (Vb f); [try rewrite Ef; left; reflexivity|exact Hf].
+  - eapply (Vb f'); [try rewrite Ef; right; exact Hin|exact Hf].
+Qed.
+
+Lemma V_set_obj s h : V s -> V (set_obj s h).
+Proof.
+  intros (Va & Vb & Hh). unfold set_obj. destruct (frames s) as [|f r] eqn:Ef; [split; [|split]; auto; try rewrite Ef; auto|].
+  unfold V, hist_ok. cbn [heap frames rnd upd_frames]. split; [exact Va|split; [|exact Hh]].
+  intros f' n' v' [<-|Hin] Hf; change (val_ok s v').
+  - cbn [f_vars] in Hf. eapply (Vb f); [try rewrite Ef; left; reflexivity|exact Hf].
+  - eapply (Vb f'); [try rewrite Ef; right; exact Hin|exact Hf].
+Qed.
+
+Lemma V_push_frame s : V s -> V (push_frame s).
+Proof.
+  intros (Va & Vb & Hh). unfold push_frame, V, hist_ok. cbn [heap frames rnd upd_frames].
+  split; [exact Va|split; [|exact Hh]].
+  intros f' n' v' [<-|Hin] Hf; change (val_ok s v'); [|eapply Vb; eassumption].
+  cbn [f_vars] in Hf. unfold cur_frame in Hf. destruct (frames s) as [|f r] eqn:Ef; [destruct Hf|].
+  eapply (Vb f); [try rewrite Ef; left; reflexivity|exact Hf].
+Qed.
+
+Lemma V_pop_frame s : V s -> V (pop_frame s).
+Proof.
+  intros (Va & Vb & Hh). unfold pop_frame. destruct (frames s) as [|f r] eqn:Ef; [split; [|split]; auto; try rewrite Ef; auto|].
+  unfold V, hist_ok. cbn [heap frames rnd upd_frames]. split; [exact Va|split; [|exact Hh]].
+  intros f' n' v' Hin Hf. change (val_ok s v'). eapply (Vb f'); [try rewrite Ef; right; exact Hin|exact Hf].
+Qed.
+
+Lemma V_new_cell s T id i : V s -> V (upd_heap s (heap s ++ [mkCell T id i []])).
+Proof.
+  intros (Va & Vb & Hh). unfold V, hist_ok. cbn [heap frames rnd upd_heap]. split; [|split; [exact Vb|exact Hh]].
+  intros c n v Hin Hf. change (val_ok s v). apply in_app_or in Hin. destruct Hin as [Hin|[<-|[]]]; [|destruct Hf].
+  eapply Va; eassumption.
+Qed.
+
+Lemma register_object_V s h t nick once : V s -> V (register_object s h t nick once).
+Proof.
+  apply V_transfer; try (unfold register_object; destruct nick, once; reflexivity).
+  apply mono_ids. unfold register_object; destruct nick, once; reflexivity.
+Qed.
+
+Lemma remember_deps_same fs : forall s t,
+  heap (remember_deps s t fs) = heap s /\ frames (remember_deps s t fs) = frames s /\
+  rnd (remember_deps s t fs) = rnd s /\ ids (remember_deps s t fs) = ids s.
+Proof.
+  unfold remember_deps. induction fs as [|[n v] r IH]; intros s t; cbn [fold_left]; [auto|].
+  destruct (IH (match target_table s v with
+                | Some tgt => if existsb (dep_eqb (t, tgt, n)) (deps s) then s else upd_deps s (deps s ++ [(t, tgt, n)])
+                | None => s end) t) as (a & b & c & d).
+  rewrite a, b, c, d. destruct (target_table s v); [|auto]. destruct (existsb _ _); auto.
+Qed.
+
+Lemma remember_deps_V fs s t : V s -> V (remember_deps s t fs).
+Proof.
+  destruct (remember_deps_same fs s t) as (a & b & c & d).
+  apply V_transfer; auto; [rewrite c; reflexivity|apply mono_ids; exact d].
+Qed.
+
+Lemma new_row_id_same s t nick :
+  heap (fst (new_row_id s t nick)) = heap s /\ frames (fst (new_row_id s t nick)) = frames s /\
+  rnd (fst (new_row_id s t nick)) = rnd s.
+Proof.
+  unfold new_row_id, consume_for, generate_id.
+  destruct nick as [n|].
+  - destruct (lookup n (slots s)) as [sl|]; [destruct (s_alloc sl); [destruct (_ && _)|]|];
+      try (cbn; auto; fail);
+      destruct (lookup t (slots s)) as [sl2|]; try (cbn; auto; fail);
+      destruct (s_alloc sl2); try (cbn; auto; fail); destruct (_ && _); cbn; auto.
+  - destruct (lookup t (slots s)) as [sl2|]; try (cbn; auto; fail);
+      destruct (s_alloc sl2); try (cbn; auto; fail); destruct (_ && _); cbn; auto.
+Qed.
+
 
 (* flatten: the references it produces are bounded by the counters of the resulting state *)
 Lemma flatten_fields_J fs : forall s s' l,
-  flatten_fields s fs = Ok (s', l) -> J s ->
+  flatten_fields s fs = Ok (s', l) -> J s -> (forall n v, In (n, v) fs -> val_ok s v) ->
   J s' /\ mono s s' /\ out s' = out s /\
   forall n T i, In (n, ORef T i) l -> 1 <= i <= last_id s' T.
 Proof.
-  induction fs as [|[n v] r IH]; intros s s' l H HJ; cbn [flatten_fields] in H.
+  induction fs as [|[n v] r IH]; intros s s' l H HJ Hvals; cbn [flatten_fields] in H.
   - injection H as <- <-. splits; [exact HJ|apply mono_refl|reflexivity|intros ? ? ? []].
-  - destruct (hidden n); [eauto|].
+  - destruct (hidden n); [apply (IH _ _ _ H HJ); intros n0 v0 Hin; apply (Hvals n0 v0); right; exact Hin|].
     dbind H as [s1 o]. dbind H as [s2 rest]. injection H as <- <-.
+    pose proof (Hvals n v (or_introl eq_refl)) as Hv.
     assert (H1 : J s1 /\ mono s s1 /\ out s1 = out s /\
                  forall T i, o = ORef T i -> 1 <= i <= last_id s1 T).
     { destruct v; try discriminate; try (injection E as <- <-; splits; [exact HJ|apply mono_refl|reflexivity|discriminate]).
@@ -208,21 +622,27 @@ Proof.
         injection E as <- <-. destruct (touch_slot_J _ _ _ _ E1 HJ) as (J3 & M3 & sl' & Hl' & Hb).
         rewrite Hl in Hl'. injection Hl' as <-.
         splits; [exact J3|exact M3|apply (touch_slot_out _ _ _ _ E1)|].
-        intros T i' Hq. injection Hq as <- <-. exact Hb. }
+        intros T i' Hq. injection Hq as <- <-. exact Hb.
+      - injection E as <- <-. splits; [exact HJ|apply mono_refl|reflexivity|].
+        intros T i' Hq. injection Hq as <- <-. exact Hv. }
     destruct H1 as (J1 & M1 & O1 & Hb1).
-    destruct (IH _ _ _ E0 J1) as (J2 & M2 & O2 & Hb2).
+    assert (Hvals1 : forall n0 v0, In (n0, v0) r -> val_ok s1 v0).
+    { intros n0 v0 Hin. eapply val_ok_mono; [exact M1|]. apply (Hvals n0 v0). right. exact Hin. }
+    destruct (IH _ _ _ E0 J1 Hvals1) as (J2 & M2 & O2 & Hb2).
     splits; [exact J2|eapply mono_trans; eassumption|congruence|].
     intros n' T i [Heq|Hin].
     + injection Heq as _ Ho. specialize (Hb1 T i Ho). specialize (M2 T). lia.
     + eapply Hb2; eassumption.
 Qed.
 
-Lemma write_row_J s h s' : write_row s h = Ok s' -> J s -> J s' /\ mono s s'.
+Lemma write_row_J s h s' : write_row s h = Ok s' -> J s -> V s -> J s' /\ mono s s'.
 Proof.
   unfold write_row. destruct (nth_error (heap s) h) as [c|] eqn:Hc; [|discriminate].
-  destruct (hidden (c_table c)); [intros H HJ; injection H as <-; split; [exact HJ|apply mono_refl]|].
-  intros H HJ. dbind H as [s1 fs]. injection H as <-.
-  destruct (flatten_fields_J _ _ _ _ E HJ) as ([B1 R1] & M1 & O1 & Hb).
+  destruct (hidden (c_table c)); [intros H HJ _; injection H as <-; split; [exact HJ|apply mono_refl]|].
+  intros H HJ HVs. dbind H as [s1 fs]. injection H as <-.
+  assert (Hvals : forall n v, In (n, v) (c_fields c) -> val_ok s v).
+  { intros n v Hin. destruct HVs as (Va & _). eapply (Va c); [eapply nth_error_In; exact Hc|exact Hin]. }
+  destruct (flatten_fields_J _ _ _ _ E HJ Hvals) as ([B1 R1] & M1 & O1 & Hb).
   split; [|exact M1]. split; [exact B1|].
   unfold refs_bounded. intros row n T i Hr Hin. cbn [out upd_out] in Hr. destruct Hr as [<-|Hr].
   - cbn [snd] in Hin. destruct Hin as [Heq|Hin]; [discriminate|].
@@ -293,49 +713,64 @@ Proof. intros (a & _). apply mono_ids. exact a. Qed.
 Strategy 1000 [iteration run].
 
 Theorem run_J fuel : forall e tk s s' r,
-  run fuel e tk s = Ok (s', r) -> J s -> J s' /\ mono s s'.
+  run fuel e tk s = Ok (s', r) -> J s -> V s ->
+  J s' /\ mono s s' /\ V s' /\ val_ok s' (ret_value r).
 Proof.
-  induction fuel as [|n IH]; intros e tk s s' r H HJ; [discriminate|].
+  induction fuel as [|n IH]; intros e tk s s' r H HJ HV; [discriminate|].
   cbn [run] in H. destruct tk as [l c|x c|t|t i cnt last|t i|h fs|d].
-  - destruct l as [|x l]; [injection H as <- _; split; [exact HJ|apply mono_refl]|].
-    dbind H as [s1 r1]. destruct (IH _ _ _ _ _ E HJ) as [J1 M1].
-    destruct (IH _ _ _ _ _ H J1) as [J2 M2]. split; [exact J2|eapply mono_trans; eassumption].
+  - destruct l as [|x l]; [injection H as <- <-; splits; [exact HJ|apply mono_refl|exact HV|exact I]|].
+    dbind H as [s1 r1]. destruct (IH _ _ _ _ _ E HJ HV) as (J1 & M1 & V1 & _).
+    destruct (IH _ _ _ _ _ H J1 V1) as (J2 & M2 & V2 & R2).
+    splits; [exact J2|eapply mono_trans; eassumption|exact V2|exact R2].
   - destruct x as [t|name d].
-    + destruct (t_once t && c); [injection H as <- _; split; [exact HJ|apply mono_refl]|].
-      dbind H as [s1 r1]. injection H as <- _. eapply IH; eassumption.
-    + dbind H as [s1 r1]. injection H as <- _.
-      assert (J0 : J (push_frame s)) by (eapply J_of_core; [apply (push_frame_core 0)|reflexivity|reflexivity|exact HJ]).
-      destruct (IH _ _ _ _ _ E J0) as [J1 M1].
-      assert (C1 : same_core 0 s1 (set_var (pop_frame s1) name (ret_value r1))).
-      { eapply same_core_trans; [apply pop_frame_core|apply set_var_core]. }
-      split.
-      * eapply J_of_core; [exact C1|rewrite set_var_out, pop_frame_out; reflexivity
-                          |rewrite set_var_heap, pop_frame_heap; reflexivity|exact J1].
-      * eapply mono_trans; [exact M1|]. eapply mono_core; exact C1.
-  - dbind H as [s1 cnt]. dbind H as [s2 r2]. injection H as <- _.
+    + destruct (t_once t && c); [injection H as <- <-; splits; [exact HJ|apply mono_refl|exact HV|exact I]|].
+      dbind H as [s1 r1]. injection H as <- <-.
+      destruct (IH _ _ _ _ _ E HJ HV) as (J1 & M1 & V1 & _). splits; auto. exact I.
+    + assert (Hgen : forall s1 r1, run n e (TField d) (push_frame s) = Ok (s1, r1) ->
+                       J (set_var (pop_frame s1) name (ret_value r1)) /\
+                       mono s (set_var (pop_frame s1) name (ret_value r1)) /\
+                       V (set_var (pop_frame s1) name (ret_value r1))).
+      { intros s1 r1 E.
+        assert (J0 : J (push_frame s)) by (eapply J_of_core; [apply (push_frame_core 0)|reflexivity|reflexivity|exact HJ]).
+        destruct (IH _ _ _ _ _ E J0 (V_push_frame _ HV)) as (J1 & M1 & V1 & R1).
+        assert (C1 : same_core 0 s1 (set_var (pop_frame s1) name (ret_value r1))).
+        { eapply same_core_trans; [apply pop_frame_core|apply set_var_core]. }
+        splits.
+        - eapply J_of_core; [exact C1|rewrite set_var_out, pop_frame_out; reflexivity
+                            |rewrite set_var_heap, pop_frame_heap; reflexivity|exact J1].
+        - eapply mono_trans; [exact M1|]. eapply mono_core; exact C1.
+        - apply V_set_var; [apply V_pop_frame; exact V1|].
+          eapply val_ok_mono; [|exact R1]. eapply mono_core. apply (pop_frame_core 0). }
+      destruct d; try discriminate;
+        (dbind H as [s1 r1]; injection H as <- <-;
+         destruct (Hgen _ _ eq_refl) as (a & b & c0); splits; [exact a|exact b|exact c0|exact I]).
+  - dbind H as [s1 cnt]. dbind H as [s2 r2]. injection H as <- <-.
     assert (J0 : J (push_frame s)) by (eapply J_of_core; [apply (push_frame_core 0)|reflexivity|reflexivity|exact HJ]).
-    assert (H1 : J s1 /\ mono s s1).
+    assert (H1 : J s1 /\ mono s s1 /\ V s1).
     { destruct (t_count t) as [d|].
       - dbind E as [s1' r1]. dbind E as w0. injection E as <- _.
-        destruct (IH _ _ _ _ _ E1 J0) as [a b]. split; [exact a|exact b].
-      - injection E as <- _. split; [exact J0|eapply mono_core; apply (push_frame_core 0)]. }
-    destruct H1 as [J1 M1]. destruct (IH _ _ _ _ _ E0 J1) as [J2 M2].
-    split.
+        destruct (IH _ _ _ _ _ E1 J0 (V_push_frame _ HV)) as (a & b & c0 & _). splits; [exact a|exact b|exact c0].
+      - injection E as <- _. splits; [exact J0|eapply mono_core; apply (push_frame_core 0)|apply V_push_frame; exact HV]. }
+    destruct H1 as (J1 & M1 & V1). destruct (IH _ _ _ _ _ E0 J1 V1) as (J2 & M2 & V2 & R2).
+    assert (Mp : mono s2 (pop_frame s2)) by (eapply mono_core; apply (pop_frame_core 0)).
+    splits.
     + eapply J_of_core; [apply (pop_frame_core 0)|apply pop_frame_out|apply pop_frame_heap|exact J2].
-    + eapply mono_trans; [exact M1|]. eapply mono_trans; [exact M2|].
-      eapply mono_core. apply (pop_frame_core 0).
-  - destruct (i <? cnt); [|injection H as <- _; split; [exact HJ|apply mono_refl]].
+    + eapply mono_trans; [exact M1|]. eapply mono_trans; [exact M2|exact Mp].
+    + apply V_pop_frame. exact V2.
+    + eapply val_ok_mono; [exact Mp|exact R2].
+  - destruct (i <? cnt); [|injection H as <- <-; splits; [exact HJ|apply mono_refl|exact HV|destruct last; exact I]].
     dbind H as [s1 r1].
     assert (J0 : J (set_var s "child_index" (VInt i))).
     { eapply J_of_core; [apply (set_var_core 0)|apply set_var_out|apply set_var_heap|exact HJ]. }
-    destruct (IH _ _ _ _ _ E J0) as [J1 M1].
-    destruct r1; try discriminate. destruct (IH _ _ _ _ _ H J1) as [J2 M2].
-    split; [exact J2|]. eapply mono_trans; [|exact M2]. eapply mono_trans; [|exact M1].
+    assert (V0 : V (set_var s "child_index" (VInt i))) by (apply V_set_var; [exact HV|exact I]).
+    destruct (IH _ _ _ _ _ E J0 V0) as (J1 & M1 & V1 & _).
+    destruct r1; try discriminate. destruct (IH _ _ _ _ _ H J1 V1) as (J2 & M2 & V2 & R2).
+    splits; [exact J2| |exact V2|exact R2]. eapply mono_trans; [|exact M2]. eapply mono_trans; [|exact M1].
     eapply mono_core. apply (set_var_core 0).
   - destruct (new_row_id s (t_table t) (t_nick t)) as [s1 id] eqn:Hid.
     dbind H as [s4 r4].
     destruct (nth_error (heap s4) (length (heap s1))) as [c|] eqn:Hc; [|discriminate].
-    dbind H as s6. dbind H as [s7 r7]. injection H as <- _.
+    dbind H as s5h. dbind H as s6. dbind H as [s7 r7]. injection H as <- <-.
     destruct (new_row_J _ _ _ _ _ i [] Hid HJ) as [J2 M1].
     set (s2 := upd_heap s1 (heap s1 ++ [mkCell (t_table t) id i []])) in *.
     set (s3 := register_object (set_obj s2 (length (heap s1))) (length (heap s1)) (t_table t) (t_nick t) (t_once t)) in *.
@@ -345,52 +780,81 @@ Proof.
     { eapply J_of_core; [exact C23| | |exact J2]; unfold s3.
       - rewrite register_object_out, set_obj_out. reflexivity.
       - rewrite register_object_heap, set_obj_heap. reflexivity. }
-    destruct (IH _ _ _ _ _ E J3) as [J4 M4].
+    (* the id of the new cell is issued *)
+    assert (Hidb : 1 <= id <= last_id s2 (t_table t)).
+    { destruct J2 as [(B1 & _) _]. apply (B1 (mkCell (t_table t) id i [])).
+      unfold s2. cbn [heap upd_heap]. apply in_or_app. right. left. reflexivity. }
+    assert (V1 : V s1).
+    { destruct (new_row_id_same s (t_table t) (t_nick t)) as (a & b & c0). rewrite Hid in a, b, c0. cbn [fst] in *.
+      apply (V_transfer s s1); [exact a|exact b|rewrite c0; reflexivity|exact M1|exact HV]. }
+    assert (V3 : V s3).
+    { unfold s3. apply register_object_V. apply V_set_obj. unfold s2. apply V_new_cell. exact V1. }
+    destruct (IH _ _ _ _ _ E J3 V3) as (J4 & M4 & V4 & _).
     assert (C45 : same_core 0 s4 (remember_deps s4 (t_table t) (c_fields c))) by apply remember_deps_core.
     assert (J5 : J (remember_deps s4 (t_table t) (c_fields c))).
     { eapply J_of_core; [exact C45|apply remember_deps_out|apply remember_deps_heap|exact J4]. }
-    destruct (write_row_J _ _ _ E0 J5) as [J6 M6].
-    destruct (IH _ _ _ _ _ E1 J6) as [J7 M7].
-    split; [exact J7|].
+    assert (V5 : V (remember_deps s4 (t_table t) (c_fields c))) by (apply remember_deps_V; exact V4).
+    assert (M25 : mono s2 (remember_deps s4 (t_table t) (c_fields c))).
+    { eapply mono_trans; [eapply mono_core; exact C23|]. eapply mono_trans; [exact M4|]. eapply mono_core; exact C45. }
+    assert (Hidb5 : 1 <= id <= last_id (remember_deps s4 (t_table t) (c_fields c)) (t_table t)).
+    { specialize (M25 (t_table t)). lia. }
+    pose proof (remember_history_V _ _ _ _ _ _ E0 V5 Hidb5) as V5h.
+    destruct (remember_history_rnd _ _ _ _ _ _ E0) as [xr Hxr].
+    assert (J5h : J s5h) by (rewrite Hxr; exact J5).
+    assert (M5h : mono (remember_deps s4 (t_table t) (c_fields c)) s5h) by (rewrite Hxr; apply mono_ids; reflexivity).
+    destruct (write_row_J _ _ _ E1 J5h V5h) as [J6 M6].
+    assert (V6 : V s6).
+    { destruct (write_row_so _ _ _ E1) as (a & b & c0).
+      apply (V_transfer s5h s6); [exact a|exact b|rewrite c0; reflexivity|exact M6|exact V5h]. }
+    destruct (IH _ _ _ _ _ E2 J6 V6) as (J7 & M7 & V7 & _).
+    splits; [exact J7| |exact V7|exact I].
     eapply mono_trans; [exact M1|]. eapply mono_trans; [|exact M7]. eapply mono_trans; [|exact M6].
-    eapply mono_trans; [|eapply mono_core; exact C45].
-    eapply mono_trans; [|exact M4].
-    eapply mono_trans; [|eapply mono_core; exact C23]. apply mono_ids. reflexivity.
-  - destruct fs as [|[name d] fs]; [injection H as <- _; split; [exact HJ|apply mono_refl]|].
+    eapply mono_trans; [|exact M5h]. eapply mono_trans; [|exact M25]. apply mono_ids. reflexivity.
+  - destruct fs as [|[name d] fs]; [injection H as <- <-; splits; [exact HJ|apply mono_refl|exact HV|exact I]|].
     destruct (String.eqb name "id"); [discriminate|].
-    dbind H as [s1 v]. destruct (IH _ _ _ _ _ E HJ) as [J1 M1].
+    dbind H as [s1 v]. destruct (IH _ _ _ _ _ E HJ HV) as (J1 & M1 & V1 & R1).
     destruct (set_field_core 0 s1 h name (ret_value v)) as (Ci & Cs & _).
     assert (J1' : J (set_field s1 h name (ret_value v))).
     { eapply J_frame; [exact Ci|exact Cs|apply set_field_out| |exact J1].
       intros c' Hc'. eapply set_field_keys; eassumption. }
-    destruct (IH _ _ _ _ _ H J1') as [J2 M2]. split; [exact J2|].
+    assert (V1' : V (set_field s1 h name (ret_value v))) by (apply V_set_field; assumption).
+    destruct (IH _ _ _ _ _ H J1' V1') as (J2 & M2 & V2 & R2). splits; [exact J2| |exact V2|exact R2].
     eapply mono_trans; [exact M1|]. eapply mono_trans; [|exact M2]. apply mono_ids. exact Ci.
-  - destruct d as [z|x|ps|path|t].
-    + injection H as <- _. split; [exact HJ|apply mono_refl].
-    + destruct (version e =? 3); [injection H as <- _; split; [exact HJ|apply mono_refl]|].
-      dbind H as w0. injection H as <- _. split; [exact HJ|apply mono_refl].
-    + dbind H as [s1 v]. injection H as <- _. apply render_formula_jq in E. destruct E as [a b]. auto.
-    + dbind H as [s1 v]. injection H as <- _. apply reference_jq in E. destruct E as [a b]. auto.
+  - destruct d as [z|x|ps|path|t|to].
+    + injection H as <- <-. splits; [exact HJ|apply mono_refl|exact HV|exact I].
+    + destruct (version e =? 3); [injection H as <- <-; splits; [exact HJ|apply mono_refl|exact HV|exact I]|].
+      dbind H as w0. injection H as <- <-. splits; [exact HJ|apply mono_refl|exact HV|].
+      apply not_ref_ok. eapply look_for_number_not_ref; exact E.
+    + dbind H as [s1 v]. injection H as <- <-. destruct (render_formula_V _ _ _ _ _ E HV) as [V1 R1].
+      apply render_formula_jq in E. destruct E as [a b]. splits; auto.
+    + dbind H as [s1 v]. injection H as <- <-. destruct (reference_V _ _ _ _ _ E HV) as [V1 R1].
+      apply reference_jq in E. destruct E as [a b]. splits; auto.
     + eapply IH; eassumption.
+    + dbind H as [s1 v]. injection H as <- <-. destruct (random_reference_V _ _ _ _ _ E HV) as [V1 R1].
+      destruct (random_reference_rnd _ _ _ _ _ E) as [xr ->].
+      splits; [exact HJ|apply mono_ids; reflexivity|exact V1|exact R1].
 Qed.
 
-Lemma iteration_J e stmts c s s' : iteration e stmts c s = Ok s' -> J s -> J s' /\ mono s s'.
+Lemma iteration_J e stmts c s s' : iteration e stmts c s = Ok s' -> J s -> V s -> J s' /\ mono s s' /\ V s'.
 Proof.
-  unfold iteration. intros H HJ. dbind H as [s1 r].
+  unfold iteration. intros H HJ HV. dbind H as [s1 r].
   destruct (slots_filled s1); [|discriminate].
   destruct (stale_slot 4 s1 (survivors s1)); [discriminate|]. injection H as <-.
-  destruct (run_J _ _ _ _ _ _ E HJ) as [[(B1 & B2 & B3) R1] M1]. split; [|exact M1].
-  unfold J, Bd, refs_bounded. split; [splits|]; auto.
-  intros n sl i Hin Ha. cbn [slots reset_slots] in Hin. unfold fresh_slots in Hin.
-  apply in_map_iff in Hin. destruct Hin as ([n' t'] & Heq & _). injection Heq as <- <-. discriminate.
+  destruct (run_J _ _ _ _ _ _ E HJ HV) as ([(B1 & B2 & B3) R1] & M1 & V1 & _).
+  assert (Jr : J (reset_slots e s1)).
+  { unfold J, Bd, refs_bounded. split; [splits|]; auto.
+    intros n sl i Hin Ha. cbn [slots reset_slots] in Hin. unfold fresh_slots in Hin.
+    apply in_map_iff in Hin. destruct Hin as ([n' t'] & Heq & _). injection Heq as <- <-. discriminate. }
+  splits; [exact Jr|exact M1|].
+  apply reset_hist_V. apply (V_transfer s1 (reset_slots e s1)); try reflexivity; [apply mono_ids; reflexivity|exact V1].
 Qed.
 
-Lemma iterations_J k : forall e stmts c s s', iterations k e stmts c s = Ok s' -> J s -> J s' /\ mono s s'.
+Lemma iterations_J k : forall e stmts c s s', iterations k e stmts c s = Ok s' -> J s -> V s -> J s' /\ mono s s' /\ V s'.
 Proof.
-  induction k as [|k IH]; intros e stmts c s s' H HJ; cbn [iterations] in H.
-  - injection H as <-. split; [exact HJ|apply mono_refl].
-  - dbind H as s1. destruct (iteration_J _ _ _ _ _ E HJ) as [J1 M1].
-    destruct (IH _ _ _ _ _ H J1) as [J2 M2]. split; [exact J2|eapply mono_trans; eassumption].
+  induction k as [|k IH]; intros e stmts c s s' H HJ HV; cbn [iterations] in H.
+  - injection H as <-. splits; [exact HJ|apply mono_refl|exact HV].
+  - dbind H as s1. destruct (iteration_J _ _ _ _ _ E HJ HV) as (J1 & M1 & V1).
+    destruct (IH _ _ _ _ _ H J1 V1) as (J2 & M2 & V2). splits; [exact J2|eapply mono_trans; eassumption|exact V2].
 Qed.
 
 (* ------------------------------------------------------------------ no dangling references *)
@@ -408,21 +872,21 @@ Qed.
    reference (T, i) in the output of the run, T visible, either names an id issued before
    the run started (a row of an earlier run) or is the id of a row written by this run. *)
 Theorem no_dangling_run e stmts c k s0 s :
-  start_ok s0 -> Bd s0 -> iterations k e stmts c s0 = Ok s ->
+  start_ok s0 -> Bd s0 -> V s0 -> iterations k e stmts c s0 = Ok s ->
   forall row n T i, In row (out s) -> In (n, ORef T i) (snd row) -> hidden T = false ->
     (1 <= i <= last_id s0 T) \/ exists row', In row' (out s) /\ fst row' = T /\ orow_id row' = [i].
 Proof.
-  intros Hs0 HB H row n T i Hr Hin HT.
+  intros Hs0 HB HV0 H row n T i Hr Hin HT.
   assert (HJ0 : J s0).
   { split; [exact HB|]. destruct Hs0 as (_ & _ & _ & Ho). intros ? ? ? ? Hx. rewrite Ho in Hx. destruct Hx. }
-  destruct (iterations_J _ _ _ _ _ _ H HJ0) as [[_ R] _].
+  destruct (iterations_J _ _ _ _ _ _ H HJ0 HV0) as ([_ R] & _ & _).
   specialize (R row n T i Hr Hin).
   destruct (ids_dense_run _ _ _ _ _ _ Hs0 H) as [_ HD]. destruct (HD T) as [Hle HP]. specialize (HP HT).
   destruct (Z_le_dec i (last_id s0 T)) as [Hold|Hnew]; [left; lia|right].
   apply written_In. apply (Permutation_in _ (Permutation_sym HP)). apply Zseq_In. lia.
 Qed.
 
-Lemma init_Bd e : Bd (init_st e).
+Lemma init_Bd e dr : Bd (init_st e dr).
 Proof.
   unfold Bd. cbn [init_st heap slots]. splits.
   - intros c [].
@@ -431,16 +895,46 @@ Proof.
   - intros T. unfold last_id. cbn. lia.
 Qed.
 
-(* Fresh run, any recipe of the fragment, any number of iterations: every reference written
-   to a visible table resolves to a row of the same output.  (Taking k = 1, 2, ... shows
-   that it resolves by the end of the iteration that wrote it.) *)
+Lemma hist_ok_on_empty last names : hist_ok_on last (mkRh [] [] [] names []).
+Proof. unfold hist_ok_on. cbn. splits; intros; try contradiction; discriminate. Qed.
+
+Lemma lookupZ_lookup k l : lookupZ k l = lookup k l.
+Proof. induction l as [|[k' v] r IH]; cbn [lookupZ lookup]; [reflexivity|]. rewrite IH. reflexivity. Qed.
+
+Lemma rh_init_ok (last : string -> Z) ids0 names :
+  (forall k, last k = match lookup k ids0 with Some z => z | None => 0 end) ->
+  (forall k, 0 <= last k) ->
+  hist_ok_on last (rh_init ids0 names).
+Proof.
+  intros Hl Hnn. unfold hist_ok_on, rh_init. cbn [hrows tc lc nc n2t]. splits.
+  - intros r [].
+  - intros name v _ Hv. rewrite lookupZ_lookup in Hv. rewrite Hl, Hv. lia.
+  - intros k v Hv. rewrite lookupZ_lookup in Hv. specialize (Hnn k). rewrite Hl, Hv in Hnn. exact Hnn.
+  - intros k v Hv. rewrite lookupZ_lookup in Hv. specialize (Hnn k). rewrite Hl, Hv in Hnn. exact Hnn.
+  - intros k v [].
+Qed.
+
+Lemma init_V e dr : V (init_st e dr).
+Proof.
+  unfold V. cbn [init_st heap frames rnd hist]. splits.
+  - intros c n v [].
+  - intros f n v [<-|[]] Hin. destruct Hin.
+  - unfold hist_ok. cbn [init_st rnd hist]. unfold init_hist. destruct (hist_tables e).
+    + apply hist_ok_on_empty.
+    + apply rh_init_ok; intros k; unfold last_id; cbn; [reflexivity|lia].
+Qed.
+
+(* Fresh run, any recipe of the fragment (random references included), any number of
+   iterations: every reference written to a visible table resolves to a row of the same
+   output.  (Taking k = 1, 2, ... shows that it resolves by the end of the iteration that
+   wrote it.) *)
 Theorem no_dangling_fresh r k s :
   run_fresh r k = Ok s ->
   forall row n T i, In row (out s) -> In (n, ORef T i) (snd row) -> hidden T = false ->
     exists row', In row' (out s) /\ fst row' = T /\ orow_id row' = [i].
 Proof.
   unfold run_fresh. intros H row n T i Hr Hin HT.
-  destruct (no_dangling_run _ _ _ _ _ _ (init_start_ok _) (init_Bd _) H row n T i Hr Hin HT) as [Hold|Hnew];
+  destruct (no_dangling_run _ _ _ _ _ _ (init_start_ok _ _) (init_Bd _ _) (init_V _ _) H row n T i Hr Hin HT) as [Hold|Hnew];
     [|exact Hnew].
   unfold last_id in Hold. cbn in Hold. lia.
 Qed.
@@ -453,26 +947,38 @@ Proof. unfold iteration. intros -> H. cbn [bind]. rewrite H. reflexivity. Qed.
 
 (* ------------------------------------------------------------------ continued runs *)
 
+Lemma saved_fields_incl fs : forall fs', saved_fields fs = Ok fs' -> incl fs' fs.
+Proof.
+  induction fs as [|[n v] r IH]; intros fs' H; cbn [saved_fields] in H.
+  - injection H as <-. apply incl_refl.
+  - dbind H as rest. specialize (IH _ eq_refl).
+    destruct v; try discriminate; try (injection H as <-; apply incl_cons; [left; reflexivity|apply incl_tl; exact IH]).
+    injection H as <-. apply incl_tl. exact IH.
+Qed.
+
 Lemma clean_handles_keys hs : forall h h1, clean_handles h hs = Ok h1 ->
-  forall c', In c' h1 -> exists c, In c h /\ c_table c' = c_table c /\ c_id c' = c_id c.
+  forall c', In c' h1 -> exists c, In c h /\ c_table c' = c_table c /\ c_id c' = c_id c /\
+                                   incl (c_fields c') (c_fields c).
 Proof.
   induction hs as [|x r IH]; intros h h1 H c' Hin; cbn [clean_handles] in H.
-  - injection H as <-. exists c'. auto.
+  - injection H as <-. exists c'. splits; auto. apply incl_refl.
   - destruct (nth_error h x) as [c|] eqn:Hc; [|discriminate].
-    dbind H as fs. destruct (IH _ _ H c' Hin) as (c1 & Hc1 & Ht & Hi).
+    dbind H as fs. destruct (IH _ _ H c' Hin) as (c1 & Hc1 & Ht & Hi & Hf).
     apply In_nth_error in Hc1. destruct Hc1 as [j Hj]. rewrite nth_error_set_nth in Hj.
     destruct (Nat.eqb x j) eqn:Ej.
     + apply Nat.eqb_eq in Ej. subst j. rewrite Hc in Hj. injection Hj as <-.
-      exists c. split; [eapply nth_error_In; eassumption|]. cbn [c_table c_id] in *. auto.
+      exists c. split; [eapply nth_error_In; eassumption|]. cbn [c_table c_id c_fields] in *. splits; auto.
+      eapply incl_tran; [exact Hf|]. apply saved_fields_incl. exact E.
     + exists c1. split; [eapply nth_error_In; eassumption|auto].
 Qed.
 
-Lemma load_Bd e s c : Bd s -> save s = Ok c -> Bd (load e c).
+Lemma load_Bd e s c s0 : Bd s -> save s = Ok c -> load e c = Ok s0 -> Bd s0.
 Proof.
-  intros (B1 & B2 & B3) H. unfold save in H. dbind H as h1. injection H as <-.
-  unfold Bd, load. cbn [heap slots k_heap k_ids]. splits.
-  - intros c' Hc'. unfold last_id. cbn [ids].
-    destruct (clean_handles_keys _ _ _ E _ Hc') as (c0 & Hc0 & Ht & Hi). rewrite Ht, Hi. apply B1. exact Hc0.
+  intros (B1 & B2 & B3) H Hl. destruct (load_spec _ _ _ Hl) as [h ->].
+  unfold save in H. dbind H as h1. injection H as <-.
+  unfold Bd. cbn [heap slots k_heap k_ids]. splits.
+  - intros c' Hc'. unfold last_id. cbn [ids k_ids].
+    destruct (clean_handles_keys _ _ _ E _ Hc') as (c0 & Hc0 & Ht & Hi & _). rewrite Ht, Hi. apply B1. exact Hc0.
   - intros n sl i Hin Ha. unfold fresh_slots in Hin. apply in_map_iff in Hin.
     destruct Hin as ([n' t'] & Heq & _). injection Heq as <- <-. discriminate.
   - intros T. apply B3.
@@ -481,16 +987,115 @@ Qed.
 Lemma J_Bd s : J s -> Bd s.
 Proof. intros [B _]. exact B. Qed.
 
-(* A continued run: every reference it writes resolves to a row written by this run or names
-   an id issued by an earlier run (recorded in the continuation file it started from). *)
+(* re-saving the persistent rows keeps the history within the counters *)
+Lemma save_row_n2t h t nick id : n2t (save_row h t nick id) = n2t h.
+Proof. unfold save_row. destruct nick; reflexivity. Qed.
+
+Lemma fold_save_rows_ok last (rows : list (string * option string * Z)) : forall h,
+  hist_ok_on last h ->
+  (forall r, In r rows -> 1 <= snd r <= last (fst (fst r)) /\
+     match snd (fst r) with Some n => nick_maps_to h n (fst (fst r)) = true | None => True end) ->
+  hist_ok_on last (fold_left (fun h r => save_row h (fst (fst r)) (snd (fst r)) (snd r)) rows h).
+Proof.
+  induction rows as [|r rest IH]; intros h Hh Hr; cbn [fold_left]; [exact Hh|].
+  destruct (Hr r (or_introl eq_refl)) as [Hb Hk].
+  apply IH; [apply save_row_ok; assumption|].
+  intros r' Hin. destruct (Hr r' (or_intror Hin)) as [Hb' Hk']. split; [exact Hb'|].
+  destruct (snd (fst r')) as [n|]; [|exact I]. unfold nick_maps_to in *. rewrite save_row_n2t. exact Hk'.
+Qed.
+
+Lemma fold_assignZ_nonneg (l : list (string * Z)) : forall acc,
+  (forall k v, lookupZ k acc = Some v -> 0 <= v) -> (forall k v, In (k, v) l -> 0 <= v) ->
+  forall k v, lookupZ k (fold_left (fun a nv => assignZ (fst nv) (snd nv) a) l acc) = Some v -> 0 <= v.
+Proof.
+  induction l as [|[k0 v0] r IH]; intros acc Ha Hl; cbn [fold_left]; [exact Ha|].
+  apply IH; [|intros k v Hin; apply (Hl k v); right; exact Hin].
+  intros k v. cbn [fst snd]. rewrite lookupZ_assignZ. destruct (String.eqb k k0); [|apply Ha].
+  intros Hv. injection Hv as <-. apply (Hl k0 v0). left. reflexivity.
+Qed.
+
+Lemma lookupZ_In k v l : In (k, v) l -> exists v', lookupZ k l = Some v'.
+Proof.
+  induction l as [|[k' v'] r IH]; [intros []|]. cbn [In lookupZ]. intros [Heq|Hin].
+  - injection Heq as -> ->. rewrite String.eqb_refl. eexists. reflexivity.
+  - destruct (String.eqb k k'); [eexists; reflexivity|apply IH; exact Hin].
+Qed.
+
+Lemma resave_ok e c h0 h (last : string -> Z) :
+  resave e c h0 = Ok h -> hist_ok_on last h0 ->
+  (forall cl, In cl (k_heap c) -> 1 <= c_id cl <= last (c_table cl)) ->
+  hist_ok_on last h.
+Proof.
+  unfold resave. intros H Hh Hcells.
+  match type of H with (do nick_rows <- ?X; _) = _ => destruct X as [nick_rows|] eqn:En; cbn [bind] in H; [|discriminate] end.
+  match type of H with (do table_rows <- ?X; _) = _ => destruct X as [table_rows|] eqn:Et; cbn [bind] in H; [|discriminate] end.
+  (* every row comes from a cell of the loaded heap *)
+  assert (Hn : forall r, In r nick_rows -> 1 <= snd r <= last (fst (fst r))).
+  { clear H Et. revert nick_rows En. induction (sort_by_key (k_p_nicks c)) as [|[n x] l IH]; intros rows En.
+    - injection En as <-. intros r [].
+    - destruct (nth_error (k_heap c) x) as [cl|] eqn:Hc; [|discriminate].
+      match type of En with (do rest <- ?X; _) = _ => destruct X as [rest|] eqn:Er; cbn [bind] in En; [|discriminate] end.
+      injection En as <-. intros r [<-|Hin]; [cbn; apply Hcells; eapply nth_error_In; exact Hc|].
+      eapply IH; [reflexivity|exact Hin]. }
+  assert (Ht : forall r, In r table_rows -> 1 <= snd r <= last (fst (fst r))).
+  { clear H En Hn. revert table_rows Et. induction (sort_by_key (k_p_tables c)) as [|[t x] l IH]; intros rows Et.
+    - injection Et as <-. intros r [].
+    - destruct (nth_error (k_heap c) x) as [cl|] eqn:Hc; [|discriminate].
+      destruct (String.eqb t (c_table cl)) eqn:Eq; [|discriminate]. apply String.eqb_eq in Eq.
+      match type of Et with (do rest <- ?X; _) = _ => destruct X as [rest|] eqn:Er; cbn [bind] in Et; [|discriminate] end.
+      injection Et as <-. intros r [<-|Hin]; [cbn; rewrite Eq; apply Hcells; eapply nth_error_In; exact Hc|].
+      eapply IH; [reflexivity|exact Hin]. }
+  set (rows := filter _ (nick_rows ++ filter _ table_rows)) in H.
+  destruct (negb (forallb _ rows)) eqn:Ef; [discriminate|]. injection H as <-.
+  apply negb_false_iff in Ef. rewrite forallb_forall in Ef.
+  assert (Hrows : forall r, In r rows -> 1 <= snd r <= last (fst (fst r)) /\
+            match snd (fst r) with Some n => nick_maps_to h0 n (fst (fst r)) = true | None => True end).
+  { intros r Hin. split.
+    - unfold rows in Hin. apply filter_In in Hin. destruct Hin as [Hin _]. apply in_app_or in Hin.
+      destruct Hin as [Hin|Hin]; [apply Hn; exact Hin|]. apply filter_In in Hin. apply Ht. apply Hin.
+    - specialize (Ef r Hin). destruct (snd (fst r)); [exact Ef|exact I]. }
+  pose proof (fold_save_rows_ok last rows h0 Hh Hrows) as (H1 & H2 & H3 & H4 & H5).
+  unfold hist_ok_on. cbn [hrows tc lc nc n2t]. splits; auto.
+  apply fold_assignZ_nonneg; [exact H4|exact H5].
+Qed.
+
+Lemma load_V e s c s0 : V s -> Bd s -> save s = Ok c -> load e c = Ok s0 -> V s0.
+Proof.
+  intros (Va & Vb & Hh) HB Hs Hl.
+  pose proof (load_Bd _ _ _ _ HB Hs Hl) as (B1' & _ & B3').
+  destruct HB as (B1 & B2 & B3).
+  unfold load in Hl. dbind Hl as h. injection Hl as <-.
+  unfold save in Hs. dbind Hs as h1. injection Hs as <-.
+  cbn [k_ids k_heap k_p_nicks k_p_tables k_deps k_draws] in *.
+  unfold V. cbn [heap frames rnd hist]. splits.
+  - intros c' n v Hc' Hf.
+    destruct (clean_handles_keys _ _ _ E0 _ Hc') as (c0 & Hc0 & _ & _ & Hincl).
+    change (val_ok s v). eapply (Va c0); [exact Hc0|apply Hincl; exact Hf].
+  - intros f n v [<-|[]] Hin. destruct Hin.
+  - unfold hist_ok. cbn [rnd hist].
+    match goal with |- hist_ok_on ?L _ => set (last := L) in * end.
+    assert (Hinit : hist_ok_on last (init_hist e (ids s))).
+    { unfold init_hist. destruct (hist_tables e); [apply hist_ok_on_empty|].
+      apply rh_init_ok; [intros k0; reflexivity|intros k0; apply B3]. }
+    destruct (hist_tables e) eqn:Eh.
+    + injection E as <-. unfold init_hist. rewrite Eh. apply hist_ok_on_empty.
+    + eapply resave_ok; [exact E|unfold init_hist in *; rewrite Eh in *; exact Hinit|].
+      intros cl Hcl. apply (B1' cl Hcl).
+Qed.
+
+(* A continued run: every reference it writes — forward, backward, nested or random —
+   resolves to a row written by this run or names an id issued by an earlier run (recorded in
+   the continuation file it started from). *)
 Theorem no_dangling_continued r k s c s' :
-  Bd s -> save s = Ok c ->
-  (forall T, 0 <= match lookup T (k_ids c) with Some z => z | None => 0 end) ->
+  Bd s -> V s -> save s = Ok c ->
   run_one r k (Some c) = Ok s' ->
   forall row n T i, In row (out s') -> In (n, ORef T i) (snd row) -> hidden T = false ->
     (1 <= i <= last_id s T) \/ exists row', In row' (out s') /\ fst row' = T /\ orow_id row' = [i].
 Proof.
-  intros HB Hs Hnn H row n T i Hr Hin HT. cbn [run_one] in H.
-  pose proof (no_dangling_run _ _ _ _ _ _ (load_start_ok _ _ Hnn) (load_Bd _ _ _ HB Hs) H row n T i Hr Hin HT) as R.
-  rewrite (resume_after_highest _ _ _ _ Hs) in R. exact R.
+  intros HB HVs Hs H row n T i Hr Hin HT. cbn [run_one] in H. dbind H as s0.
+  assert (Hnn : forall U, 0 <= match lookup U (k_ids c) with Some z => z | None => 0 end).
+  { intros U. rewrite (save_ids _ _ Hs). destruct HB as (_ & _ & B3). apply B3. }
+  pose proof (no_dangling_run _ _ _ _ _ _ (load_start_ok _ _ _ E Hnn) (load_Bd _ _ _ _ HB Hs E)
+                (load_V _ _ _ _ HVs HB Hs E) H row n T i Hr Hin HT) as R.
+  rewrite (resume_after_highest _ _ _ _ _ Hs E) in R. exact R.
 Qed.
